@@ -174,6 +174,7 @@ struct Global {
 
 static Global G;
 static bool g_trace = false;
+static bool g_trace_stale = getenv("XRT_TRACE_STALE") != nullptr;
 static thread_local Thread* self = nullptr;
 static pthread_key_t exit_key;
 
@@ -302,6 +303,11 @@ uint64_t heap_live_bytes() { return H.live_bytes; }
 uint64_t heap_live_blocks() { return H.live_blocks; }
 uint64_t heap_total_allocs() { return H.total_allocs; }
 uint64_t heap_mark() { return H.bump; }
+void heap_dump_live(uint64_t mark, const char* tag) {
+  for (size_t u = mark / UNIT; u < H.bump / UNIT; ++u)
+    if (H.state[u] == H_LIVE && H.sizes[u] != 0)
+      fprintf(stderr, "LIVE[%s] %p size=%u\n", tag, (void*)(H.base + u * UNIT), H.sizes[u]);
+}
 uint64_t heap_live_blocks_since(uint64_t mark) {
   uint64_t n = 0;
   for (size_t u = mark / UNIT; u < H.bump / UNIT; ++u)
@@ -448,8 +454,13 @@ constexpr uint32_t SPIN_LIMIT = 48;
 
 static void hang_check(Thread* t) {
   if (G.steps > G.cfg.budget1 && !G.drain) {
+    // drain mode: no random preemption and no more injected staleness / spurious failures. The execution continues
+    // as a sequentially consistent one from the state reached so far, so that only a hang the code cannot get out of
+    // by itself is reported (retry loops that merely keep losing against injected stale reads terminate now).
     G.drain = true;
     G.rr.drain_mode = true;
+    G.stale_p = 0;
+    G.cfg.weak = false;
   }
   if (G.steps > G.cfg.budget2 && !G.hang) {
     G.hang = true;
@@ -1117,6 +1128,20 @@ static int model_read(Thread* t, Loc& l, int mo, bool force_newest, void* pc) {
       if (pick_i != newest) {
         G.rr.stale_reads++;
         site_note(pc);
+        if (g_trace_stale && (g_trace || getenv("XRT_TRACE_STALE")[0] == 'a'))
+          fprintf(stderr, "STALE step=%llu T%d loc=%p read=%llx (ts %u, %d behind) newest=%llx pc=%p\n",
+                  (unsigned long long)G.stamp, t->id, (void*)l.addr, (unsigned long long)msg_at(l, pick_i).val,
+                  msg_at(l, pick_i).ts, newest - pick_i, (unsigned long long)msg_at(l, newest).val, pc);
+        if (g_trace_stale && g_trace) {
+          fprintf(stderr, "   floor=%u reader vc=[", f);
+          for (int u = 0; u < G.nthr; ++u)
+            fprintf(stderr, "%u ", t->vc.c[u]);
+          fprintf(stderr, "] msgs:");
+          for (int i = 0; i < l.nmsg; ++i)
+            fprintf(stderr, " {ts%u val=%llx by T%d@%u step=%llu}", msg_at(l, i).ts, (unsigned long long)msg_at(l, i).val,
+                    msg_at(l, i).writer == 0xff ? -1 : msg_at(l, i).writer, msg_at(l, i).wclk, (unsigned long long)msg_at(l, i).step);
+          fprintf(stderr, "\n");
+        }
       }
     }
   }
